@@ -447,6 +447,42 @@ _collection_resolver = AbstractTypeResolver("""),
         return default""")]),
     dict(id="c14-index-one-load-per-element", fires={"C14": "C14.e"},
          edits=[(DT + "synced_list.py", """    def index(self, value, start=0, stop=None):  # noqa: D102""", """    def _index_unused(self, value, start=0, stop=None):  # noqa: D102""")]),
+    dict(id="c02-redis-loader-remembers-blob", fires={"C02": "C02.f"},
+         edits=[(BK + "collection_redis.py", """        blob = self._client.get(self._key)
+""", """        blob = self._client.get(self._key)
+        if blob is not None and blob == getattr(self, "_seen", None):
+            return None
+        self._seen = blob
+""")]),
+    dict(id="c02-first-buffered-load-falsy", fires={"C02": "C02.b"},
+         edits=[(BUF + "file_buffered_collection.py", """                data = self._load_from_resource()
+                with self._thread_lock, self._suspend_sync:
+                    self._update(data)""", """                data = self._load_from_resource()
+                if data:
+                    with self._thread_lock, self._suspend_sync:
+                        self._update(data)""")]),
+    dict(id="c03-index-on-slice", fires={"C03": "C03.c"},
+         edits=[(DT + "synced_list.py", """        if stop is None:
+            return self._data.index(value, start)
+        return self._data.index(value, start, stop)""", """        return start + self._data[start:stop].index(value)""")]),
+    dict(id="c03-writer-sorts-keys", fires={"C03": "C03.e"},
+         edits=[(BK + "collection_json.py", "json.dumps(self, cls=SyncedCollectionJSONEncoder)", "json.dumps(self, cls=SyncedCollectionJSONEncoder, sort_keys=True)")]),
+    dict(id="c06-weak-registry", fires={"C06": "C06.d"},
+         edits=[(BUF + "file_buffered_collection.py", "        cls._buffered_collections: Dict[int, BufferedCollection] = {}\n", "        cls._buffered_collections = weakref.WeakValueDictionary()\n"),
+                (BUF + "file_buffered_collection.py", "import errno\n", "import errno\nimport weakref\n")]),
+    dict(id="c09-append-converts-before-lock", fires={"C09": "C09.a"},
+         edits=[(DT + "synced_list.py", """        self._validate(item)
+        with self._load_and_save, self._suspend_sync:
+            self._data.append(self._from_base(data=item, parent=self))""", """        self._validate(item)
+        converted = self._from_base(data=item, parent=self)
+        with self._load_and_save, self._suspend_sync:
+            self._data.append(converted)""")]),
+    dict(id="c05-no-flush-when-exception", fires={"C05": "C05.c"},
+         edits=[("utils.py", """        super().__exit__(exc_type, exc_val, exc_tb)
+        if not self:
+            self._func()""", """        super().__exit__(exc_type, exc_val, exc_tb)
+        if not self and exc_type is None:
+            self._func()""")]),
     dict(id="c19-memoizes-lying-class", fires={"C19": "C19.e"},
          edits=[("utils.py", """            if getattr(obj, "__class__", obj_type) is obj_type and not issubclass(
                 obj_type, tuple(self.cache_blocklist)
@@ -490,13 +526,13 @@ SILENT = [
          edits=[(DT + "synced_list.py", """    def append(self, item):  # noqa: D102
         self._validate(item)
         with self._load_and_save, self._suspend_sync:
-            self._data.append(self._from_base(data=item, parent=self))""", """    def _locked_append(self, converted):
+            self._data.append(self._from_base(data=item, parent=self))""", """    def _locked_append(self, item):
         with self._load_and_save, self._suspend_sync:
-            self._data.append(converted)
+            self._data.append(self._from_base(data=item, parent=self))
 
     def append(self, item):  # noqa: D102
         self._validate(item)
-        self._locked_append(self._from_base(data=item, parent=self))""")]),
+        self._locked_append(item)""")]),
     dict(id="s-with-moved-into-decorator", props=["C01", "C04", "C09", "C10", "C17", "C11"],
          edits=[(DT + "synced_dict.py", """class SyncedDict(SyncedCollection, MutableMapping):""", """def _synchronized(method):
     def wrapper(self, *args, **kwargs):
